@@ -235,6 +235,10 @@ def to_type(shape):
         t = Set[to_type(shape[1])]
     elif k == "dc":
         t = make_dc(shape)
+    elif k == "cls":
+        from . import fixtures
+
+        t = getattr(fixtures, shape[1])
     else:
         raise ValueError(shape)
     _TYPE_CACHE[key] = t
@@ -284,7 +288,7 @@ def conforming(shape, special=False, for_default=False):
     if k == "int":
         return INT
     if k == "float":
-        return FLOAT
+        return st.one_of(FLOAT, FLOAT, st.sampled_from([float("inf"), float("-inf")])) if special else FLOAT
     if k == "bool":
         return st.booleans()
     if k == "enum":
@@ -306,7 +310,8 @@ def conforming(shape, special=False, for_default=False):
     if k == "uuid":
         return st.uuids().map(str)
     if k == "timedelta":
-        return st.sampled_from(["1:00:00", "0:00:01", "1 day, 0:00:00", "-1 day, 23:59:59", "0:00:00.500000", "3 days, 4:05:06.000007"])
+        return st.sampled_from(["1:00:00", "0:00:01", "1 day, 0:00:00", "-1 day, 23:59:59", "0:00:00.500000", "3 days, 4:05:06.000007",
+                                "36:00:00", "24:00:00", "47:59:59", "100:30:00"])
     if k == "bytes":
         return st.binary(max_size=6).map(lambda b: __import__("base64").b64encode(b).decode())
     if k == "range":
@@ -327,6 +332,8 @@ def conforming(shape, special=False, for_default=False):
         return st.tuples(*[rec(x) for x in shape[1:]]).map(list)
     if k == "set":
         return st.lists(rec(shape[1]), max_size=3, unique_by=lambda v: (type(v).__name__, v) if not isinstance(v, bool) else ("int", int(v))).filter(_set_safe)
+    if k == "cls":
+        return class_specs(shape[1], special)
     if k == "dc":
         def build(draw):
             out = {}
@@ -339,6 +346,29 @@ def conforming(shape, special=False, for_default=False):
 
         return st.composite(lambda draw: build(draw))()
     raise ValueError(shape)
+
+
+FX = "vf.gen.fixtures."
+
+
+@_memo
+def class_specs(base, special=False):
+    """valid class_path/init_args specs (explicit notation, full import path) for the fixture families"""
+    txt = text_strategy(special)
+    suba = st.fixed_dictionaries({}, optional={"p": st.integers(-3, 3), "q": txt}).map(lambda ia: {"class_path": FX + "SubA", "init_args": ia})
+    subb = st.fixed_dictionaries({}, optional={"r": st.one_of(st.none(), st.lists(st.sampled_from([0.5, 1, -2.0, 1e3]), max_size=2)),
+                                               "f": st.sampled_from(list(Flag.__members__)),
+                                               "t": st.tuples(st.integers(-2, 2), txt).map(list)}).map(lambda ia: {"class_path": FX + "SubB", "init_args": ia})
+    subreq = st.fixed_dictionaries({"need": txt}, optional={"c": st.sampled_from(list(Color.__members__))}).map(
+        lambda ia: {"class_path": FX + "SubReq", "init_args": ia})
+    basec = st.fixed_dictionaries({}, optional={"p": st.integers(-3, 3)}).map(lambda ia: {"class_path": FX + "Base", "init_args": ia})
+    anybase = st.one_of(suba, subb, subreq, basec)
+    if base == "Base":
+        return anybase
+    if base == "Holder":
+        return st.fixed_dictionaries({"inner": anybase}, optional={"items": st.one_of(st.none(), st.dictionaries(st.sampled_from(["a", "items", "1"]), st.integers(0, 3), max_size=2))}).map(
+            lambda ia: {"class_path": FX + "Holder", "init_args": ia})
+    raise ValueError(base)
 
 
 def _set_safe(vs):
@@ -406,6 +436,7 @@ def expected(shape, v):
 
 def _parse_timedelta(s):
     m = re.fullmatch(r"(?:(-?\d+) days?, )?(\d+):(\d\d):(\d\d)(?:\.(\d{6}))?", s)
+    assert m, s
     d, h, mi, se, us = m.groups()
     return datetime.timedelta(days=int(d or 0), hours=int(h), minutes=int(mi), seconds=int(se), microseconds=int(us or 0))
 
@@ -470,6 +501,8 @@ def conforms(shape, v):
         return type(v) is tuple and len(v) == len(shape) - 1 and all(conforms(t, x) for t, x in zip(shape[1:], v))
     if k == "set":
         return type(v) is set and all(conforms(shape[1], x) for x in v)
+    if k == "cls":
+        return type(v) is Namespace and isinstance(v.get("class_path"), str) and (v.get("init_args") is None or type(v.get("init_args")) is Namespace)
     if k == "dc":
         if type(v) is not Namespace:
             return False
@@ -594,10 +627,17 @@ def diff(a, b, path="", limit=20):
 
     out = []
 
+    def base(v):
+        # restricted / extended scalar types are subclasses of their base type: an instance and the plain base value are the same value
+        for t in (bool, int, float, str):
+            if isinstance(v, t):
+                return t
+        return type(v)
+
     def rec(a, b, path):
         if len(out) >= limit:
             return
-        if type(a) is not type(b):
+        if base(a) is not base(b):
             out.append((path, a, b))
             return
         if isinstance(a, Namespace):
@@ -618,10 +658,13 @@ def diff(a, b, path="", limit=20):
             for i, (x, y) in enumerate(zip(a, b)):
                 rec(x, y, f"{path}[{i}]")
         elif isinstance(a, (set, frozenset)):
-            if a != b or sorted(map(lambda v: (type(v).__name__, repr(v)), a)) != sorted(map(lambda v: (type(v).__name__, repr(v)), b)):
+            if a != b or sorted(map(lambda v: (base(v).__name__, repr(v)), a)) != sorted(map(lambda v: (base(v).__name__, repr(v)), b)):
                 out.append((path, a, b))
         elif isinstance(a, float):
             if not (a == b or (math.isnan(a) and math.isnan(b))):
+                out.append((path, a, b))
+        elif hasattr(a, "relative") and hasattr(a, "absolute"):  # jsonargparse Path: no __eq__, compare what the user sees
+            if (str(a.relative), str(a.absolute)) != (str(b.relative), str(b.absolute)):
                 out.append((path, a, b))
         elif a != b:
             out.append((path, a, b))
